@@ -5,6 +5,8 @@
 //! "every path of length ≤ D over k names" (k ≤ 3, D ≤ 4).  The real matchers are built with the
 //! public constructors; `visit(dir)` is taken at every universe path and `matches(p)` at every
 //! universe path, and compared with the Lean model (`Model/Matchers.lean`).
+//! Part 3 uses names that are case variants of each other and matchers holding the same glob text
+//! with different options at one directory.
 //! The model gets each glob as the truth table of its anchored regex over the universe's tails,
 //! computed with the real single-pattern file-mode `GlobsMatcher` (assumption A5: regex/globset
 //! semantics are not modelled); the prefix-mode transformation `glob_to_prefix_regex` *is* modelled.
@@ -16,7 +18,12 @@ use jj_lib::matchers::*;
 use jj_lib::repo_path::{RepoPath, RepoPathBuf};
 use std::collections::HashMap;
 
-pub const NAMES: [&str; 3] = ["a", "b", "ab"];
+/// component names of the universe; set 0 is used by parts 1-2, the other sets (case variants of
+/// one name) by part 3.  The model only sees component ids, so the choice is invisible to it.
+pub const NAME_SETS: [[&str; 3]; 4] = [["a", "b", "ab"], ["a", "A", "Ab"], ["ab", "AB", "Ab"], ["b", "B", "a"]];
+static NAME_SET: std::sync::atomic::AtomicUsize = std::sync::atomic::AtomicUsize::new(0);
+pub fn names() -> &'static [&'static str; 3] { &NAME_SETS[NAME_SET.load(std::sync::atomic::Ordering::Relaxed)] }
+fn use_names(i: usize) { NAME_SET.store(i, std::sync::atomic::Ordering::Relaxed); }
 
 pub type P = Vec<usize>;
 
@@ -37,7 +44,7 @@ pub fn universe(k: usize, d: usize) -> Vec<P> {
 }
 
 pub fn repo_path(p: &[usize]) -> RepoPathBuf {
-    RepoPathBuf::from_internal_string(p.iter().map(|c| NAMES[*c]).collect::<Vec<_>>().join("/")).unwrap()
+    RepoPathBuf::from_internal_string(p.iter().map(|c| names()[*c]).collect::<Vec<_>>().join("/")).unwrap()
 }
 pub fn show_path(p: &[usize]) -> String {
     if p.is_empty() { "r".into() } else { p.iter().map(|c| c.to_string()).collect::<Vec<_>>().join(".") }
@@ -45,7 +52,7 @@ pub fn show_path(p: &[usize]) -> String {
 fn show_paths(ps: &[P]) -> String {
     if ps.is_empty() { "-".into() } else { ps.iter().map(|p| show_path(p)).collect::<Vec<_>>().join(",") }
 }
-fn name_id(s: &str) -> usize { NAMES.iter().position(|n| *n == s).unwrap_or(99) }
+fn name_id(s: &str) -> usize { names().iter().position(|n| *n == s).unwrap_or(99) }
 
 /// a parsed glob (the `Box<Glob>` of a `FilePattern`), without naming the globset crate
 pub struct GlobPat { pub text: String, pub pat: FilePattern }
@@ -174,7 +181,7 @@ pub fn soundness_violation(uni: &[P], visits: &[V], matches: &[bool]) -> Option<
     for (di, dir) in uni.iter().enumerate() {
         for (pi, p) in uni.iter().enumerate() {
             if p.len() <= dir.len() || p[..dir.len()] != dir[..] { continue; }
-            let child = NAMES[p[dir.len()]].to_string();
+            let child = names()[p[dir.len()]].to_string();
             let leaf = p.len() == dir.len() + 1;
             match &visits[di] {
                 V::Nothing => if matches[pi] {
@@ -222,7 +229,7 @@ fn one(out: &mut Out, k: usize, d: usize, uni: &[P], e: &E, globs: &[GlobPat], t
             if comb && n_match > 0 && n_match < uni.len() && has_set && (has_all || has_nothing) { out.nontrivial(&req); }
             match soundness_violation(uni, &visits, &matches) {
                 None => out.oracle_ok(),
-                Some((sig, detail)) => out.oracle_fail(sig, format!("{} over names {:?}: {detail}", describe(e, globs), &NAMES[..k])),
+                Some((sig, detail)) => out.oracle_fail(sig, format!("{} over names {:?}: {detail}", describe(e, globs), &names()[..k])),
             }
         }
     }
@@ -273,6 +280,65 @@ fn rand_expr(r: &mut Rng, k: usize, d: usize, nglobs: usize, depth: usize) -> E 
     match r.below(3) { 0 => E::U(a, b), 1 => E::I(a, b), _ => E::D(a, b) }
 }
 
+// part 3: several globs with the same text but different options in one `GlobsMatcher`
+const CASE_COMPS: [&str; 14] = ["a*", "A*", "*b", "*B", "?", "a?", "A?", "[ab]", "[AB]*", "{a,Ab}", "{A,ab}", "*", "?b", "[!a]*"];
+const CASE_LITS: [&str; 7] = ["a", "A", "ab", "Ab", "AB", "b", "B"];
+
+/// `n` glob texts (first component always has a meta character, so the pattern text does not depend
+/// on the options), each compiled case-sensitively (index 2i) and case-insensitively (index 2i+1)
+fn twin_pool(r: &mut Rng, n: usize) -> Vec<GlobPat> {
+    let mut v = vec![];
+    while v.len() < 2 * n {
+        let mut comps = vec![r.pick(&CASE_COMPS).to_string()];
+        if r.chance(1, 3) { comps.push(match r.below(3) { 0 => r.pick(&CASE_COMPS).to_string(), 1 => "**".into(), _ => r.pick(&CASE_LITS).to_string() }); }
+        let text = comps.join("/");
+        if let (Some(a), Some(b)) = (GlobPat::new(&text, false), GlobPat::new(&text, true)) { v.push(a); v.push(b); }
+    }
+    v
+}
+
+/// a globs matcher in which a (dir, text) pair mostly occurs twice or more, with different options,
+/// in either order, next to other patterns at the same, a nested or an unrelated directory
+fn twin_leaf(r: &mut Rng, k: usize, d: usize, nglobs: usize) -> E {
+    let mut pats: Vec<(P, usize)> = vec![];
+    for _ in 0..r.range(1, 2) {
+        let dir = if !pats.is_empty() && r.chance(1, 2) {
+            let mut p = r.pick(&pats).0.clone();
+            if r.chance(1, 2) && p.len() + 1 < d { p.push(r.below(k)); }
+            p
+        } else { rand_path(r, k, 0, d - 1) };
+        let g = r.below(nglobs);
+        pats.push((dir.clone(), g));
+        if r.chance(4, 5) { pats.push((dir.clone(), g ^ 1)); }
+        if r.chance(1, 6) { pats.push((dir.clone(), if r.chance(1, 2) { g } else { g ^ 1 })); }
+        if r.chance(1, 4) { pats.push((dir, r.below(nglobs))); }
+    }
+    if r.chance(1, 3) { let i = r.below(pats.len()); let x = pats.remove(i); pats.push(x); }
+    E::G { pfx: r.chance(1, 2), pats }
+}
+
+fn rand_expr3(r: &mut Rng, k: usize, d: usize, nglobs: usize, depth: usize) -> E {
+    if depth == 0 || r.chance(1, 3) { return if r.chance(2, 3) { twin_leaf(r, k, d, nglobs) } else { rand_leaf(r, k, d, nglobs) }; }
+    let a = Box::new(rand_expr3(r, k, d, nglobs, depth - 1));
+    let b = Box::new(rand_expr3(r, k, d, nglobs, depth - 1));
+    match r.below(3) { 0 => E::U(a, b), 1 => E::I(a, b), _ => E::D(a, b) }
+}
+
+/// does some `GlobsMatcher` of the expression hold, at one directory, two globs with the same text
+/// whose truth tables differ (i.e. the options matter on this universe)?
+fn has_twins(e: &E, t: &mut Tables) -> bool {
+    match e {
+        E::G { pats, .. } => {
+            for (i, (d1, g1)) in pats.iter().enumerate() { for (d2, g2) in &pats[i + 1..] {
+                if d1 == d2 && g1 != g2 && *g1 / 2 == *g2 / 2 && t.get(*g1).to_string() != t.get(*g2) { return true; }
+            } }
+            false
+        }
+        E::U(a, b) | E::I(a, b) | E::D(a, b) => has_twins(a, t) || has_twins(b, t),
+        _ => false,
+    }
+}
+
 pub fn run(cfg: &Cfg, out: &mut Out) {
     // part 1: every binary combination of a fixed pool of small leaves (k = 2, D = 2)
     {
@@ -312,4 +378,23 @@ pub fn run(cfg: &Cfg, out: &mut Out) {
             one(out, k, d, &uni, &e, &globs, &mut tables);
         }
     }
+
+    // part 3: universes whose names are case variants of each other; glob pools holding every text
+    // both case-sensitively and case-insensitively; matchers registering both at one directory
+    let mut r = cfg.rng(3003);
+    let rounds = cfg.n(300, 5000);
+    for round in 0..rounds {
+        use_names(1 + (round % 3) as usize);
+        let (k, d) = match round % 4 { 0 => (2, 2), 1 => (3, 2), 2 => (2, 3), _ => (3, 3) };
+        let uni = universe(k, d);
+        let globs = twin_pool(&mut r, 3);
+        let mut tables = Tables { globs: &globs, uni: &uni, cache: HashMap::new() };
+        for i in 0..40 {
+            let depth = (i * 4) / 40;
+            let e = rand_expr3(&mut r, k, d, globs.len(), depth);
+            out.tally("same-text-globs-in-one-matcher", if has_twins(&e, &mut tables) { "different-options,different-table" } else { "none" });
+            one(out, k, d, &uni, &e, &globs, &mut tables);
+        }
+    }
+    use_names(0);
 }
